@@ -463,6 +463,16 @@ class Gen:
             for lab in labels:
                 lt = str(lab) if rng.random() < 0.6 else f"({lab} + {self.cexpr(0)} * 0)"
                 body += f" case {lt}: {self.stmt(0, env, in_loop, ret)}" + (" break;" if rng.random() < 0.7 else "")
+            if rng.random() < 0.15:
+                # a second label with the value of an earlier one: spelled identically, or differently but equal after
+                # conversion to the (promoted) type of the controlling expression - a constraint violation that has to
+                # come out as a diagnostic whatever the spelling
+                lab = rng.choice(labels)
+                alias = rng.choice([str(lab), f"({lab} + 0)", f"{lab & 0xFFFFFFFF:#x}", f"{lab + (1 << 32)}L", f"{lab}L",
+                                    f"({lab} + 4294967296)", f"{lab & 0xFFFFFFFF}u" if lab >= 0 else f"{lab & 0xFFFFFFFF:#x}"])
+                body += f" case {alias}: {self.stmt(0, env, in_loop, ret)} break;"
+                if rng.random() < 0.5:
+                    body += " default: break; default: break;"
             if rng.random() < 0.6:
                 body += f" default: {self.stmt(0, env, in_loop, ret)} break;"
             return f"switch ({self.rexpr(1, env)}) {{{body} }}"
@@ -557,6 +567,9 @@ CORPUS_B = [
     "typedef unsigned long T; T g = 5; T h(T a, unsigned char b) { return a * b + (T)-1 / 3; }\n",
     "int g; int *p = &g; int f(void) { int *q = &g; *q = 3; return *p + sizeof(g) + sizeof(int); }\n",
     ENUM_UNIT,
+    "int f(int x) { switch (x) { case -1: return 1; case 0xFFFFFFFF: return 2; } return 0; }\n",
+    "int f(unsigned char c) { switch (c) { case 1: return 1; case 4294967297: return 2; default: return 3; } }\n",
+    "int f(long x) { switch (x) { case 5: return 1; case 5L: return 2; case 2 + 3: return 3; } return 0; }\n",
     "int f(int x) { if (x) goto done; x = x + 1; done: return x; }\nint g(int x) { int r = 0; again: r++; if (r < x) goto again; if (r > 5) goto done; r = 7; done: return r; }\n",
     "int v; int f(int v1) { static int s = 1; int v = v1; struct T { int a; } t = { 3 }; enum { K = 2 }; return v + s + t.a + K; }\n"
     "long g(long v1) { static long s = -1; struct T { char c; long l; } t = { 1, 2 }; enum { K = 9 }; return v1 + s + t.l + K + v; }\n",
